@@ -11,6 +11,32 @@ E2 = "stateless model checking: exhaustive DFS of the choice tree of RNG answers
 E3 = "explicit-state BFS over operation histories of the real object, reference-model comparison in every state"
 
 CHECKS = {
+    "C01": dict(
+        built=True,
+        category="exploration",
+        engine="E1+E4",
+        technique=E1 + "; every CNF x configuration of the declared spaces, returned assignments evaluated clause by clause",
+        text="Within the bound the check is the universally quantified statement: every clause-set of <=4 clauses over the "
+        "complete 26-clause universe on 3 variables (both clause orders) crossed with 224 configurations, ordered literal "
+        "sequences with duplicates/tautologies, renumbered variables, pigeonhole/parity families under every renaming, and "
+        "2^11-model enumerations that drive reduce_db; 8.4M solver runs per quick pass.",
+        note="Trusts: clause evaluation of a dict (10 lines). Formulas with more than 4 variables are reached only via the "
+        "structured families; default tuning with >100 conflicts only via luby_factor in {1,2}.",
+        ref="2/C01",
+    ),
+    "C02": dict(
+        built=True,
+        category="exploration",
+        engine="E1+E4",
+        technique=E1 + "; truth-table oracle for verdicts, sys.monitoring tap on analyze() for entailment of every learned clause, "
+        "fuel (jump-event budget) for termination",
+        text="Same spaces as C01; INFEASIBLE/OPTIMAL/MAX_ITER are compared with the truth table of formula AND assumptions, "
+        "MAX_ITER must be justified by the number of analysed conflicts, each learned clause is checked for entailment, and a call "
+        "that does not return is confirmed by a deterministic fuel budget rather than wall-clock.",
+        note="Trusts: truth-table enumeration; the tap depends on the nested function name analyze (evidence says when it could "
+        "not attach). One open known finding: [[]] answers OPTIMAL {} (pinned by the repository's own test).",
+        ref="2/C01",
+    ),
     "C20": dict(
         built=True,
         category="model_checking",
